@@ -65,7 +65,15 @@ def split(arg):
 
 def _atom(kind, base):
     name = '%s(%s)' % (kind, base.text())
-    TRIG[name] = (kind, base)
+    if name not in TRIG:
+        TRIG[name] = (kind, base)
+        from . import kernel as _kernel
+        d = set()
+        for a in base.atoms():
+            d.add(a)
+            d |= _kernel.ATOM_DEPS.get(a, set())
+        if d:
+            _kernel.ATOM_DEPS[name] = d
     return P.atom(name)
 
 
